@@ -1748,8 +1748,6 @@ BTree_rangeSearch(BTree *self, PyObject *args, PyObject *kw, char type)
             PER_UNUSE(lowbucket);
             if (bucketlen > 1)
                 lowoffset = 1;
-            else if (self->len < 2)
-                goto empty;
             else
             {    /* move to first item in next bucket */
                 Bucket *next;
@@ -1757,7 +1755,12 @@ BTree_rangeSearch(BTree *self, PyObject *args, PyObject *kw, char type)
                     goto err;
                 next = lowbucket->next;
                 PER_UNUSE(lowbucket);
-                assert(next != NULL);
+                /* The root may have a single child even though the tree
+                 * has several buckets, so ask the bucket chain -- not
+                 * self->len -- whether there is a next bucket.
+                 */
+                if (next == NULL)
+                    goto empty;
                 lowbucket = next;
                 /* and lowoffset is still 0 */
                 assert(lowoffset == 0);
@@ -1792,12 +1795,12 @@ BTree_rangeSearch(BTree *self, PyObject *args, PyObject *kw, char type)
         {
             if (highoffset > 0)
                 --highoffset;
-            else if (self->len < 2)
+            else if (highbucket == self->firstbucket)
+                /* the only bucket (see above: don't ask self->len) */
                 goto empty_and_decref_buckets;
             else /* move to last item of preceding bucket */
             {
                 int status;
-                assert(highbucket != self->firstbucket);
                 Py_DECREF(highbucket);
                 status = PreviousBucket(&highbucket, self->firstbucket);
                 if (status < 0)
